@@ -141,50 +141,57 @@ func report(eng *Engine, prop, tier string, seed int, start time.Time, runs []*R
 		rf := &replayFile{Property: pid, Obligation: v.name, Status: v.reason, Solver: map[string]string{}}
 		noInput := true
 		if v.o != nil {
+			first := true
 			for _, q := range v.o.Queries {
-				if q.Result.Status == "unsat" {
+				if q.Result.Status == "unsat" || strings.HasPrefix(q.Result.Outputs["govc"], "not attempted") {
 					continue
 				}
-				rf.Goal = q.Goal
-				rf.Trace = q.Trace
-				rf.Script = q.Result.File
-				for s, o := range q.Result.Outputs {
-					rf.Solver[s] = trunc(o, 1500)
-				}
-				if q.Result.Status == "sat" {
-					rf.Model = parseModel(q.Result.Model)
-					rf.Reason = "solver found a state satisfying the path condition and violating the clause"
-					if !*flagNoReplay {
-						if out := tryReplay(eng, q, rf.Model); out != nil {
-							rf.Replay = out
-							if out.Confirmed {
-								noInput = false
-							}
-						}
+				if first {
+					rf.Goal = q.Goal
+					rf.Trace = q.Trace
+					rf.Script = q.Result.File
+					for s, o := range q.Result.Outputs {
+						rf.Solver[s] = trunc(o, 1500)
 					}
-				} else {
-					rf.Reason = "no solver discharged this obligation within the time limit (it is discharged on the pinned tree)"
-					if !*flagNoReplay && q.Run != nil && (q.Kind == "ensures" || q.Kind == "safety") && modelSearches < 3 && replayableFn(q.Run.fn) {
-						modelSearches++
-						// look for a candidate input with concrete definitions and no axioms, then check it on the real code
-						if m := findModel(eng, q); m != nil {
-							rf.Model = parseModel(m.Model)
-							saved := q.Result
-							q.Result = m
-							q.concrete = true
-							if out := tryReplay(eng, q, rf.Model); out != nil {
-								rf.Replay = out
-								if out.Confirmed {
-									noInput = false
-									rf.Reason += "; a failing input was found with concrete definitions and confirmed on the real code"
-								}
-							}
-							q.concrete = false
-							q.Result = saved
-						}
+					if q.Result.Status == "sat" {
+						rf.Reason = "solver found a state satisfying the path condition and violating the clause"
+					} else {
+						rf.Reason = "no solver discharged this obligation within the time limit (it is discharged on the pinned tree)"
 					}
+					first = false
 				}
-				break
+				if *flagNoReplay || q.Run == nil || !(q.Kind == "ensures" || q.Kind == "safety") || !replayableFn(q.Run.fn) || modelSearches >= 12 {
+					continue
+				}
+				// candidate input: the solver's model, or one found with concrete definitions and no axioms; then the real code decides
+				modelSearches++
+				cand := q.Result
+				if q.Result.Status != "sat" {
+					cand = findModel(eng, q)
+				}
+				if cand == nil {
+					continue
+				}
+				saved := q.Result
+				q.Result = cand
+				q.concrete = true
+				out := tryReplay(eng, q, nil)
+				q.concrete = false
+				q.Result = saved
+				if out == nil {
+					continue
+				}
+				if rf.Replay == nil || out.Confirmed {
+					rf.Replay = out
+					rf.Model = parseModel(cand.Model)
+					rf.Trace = q.Trace
+					rf.Goal = q.Goal
+				}
+				if out.Confirmed {
+					noInput = false
+					rf.Reason += "; a failing input was found and confirmed on the real code"
+					break
+				}
 			}
 		} else {
 			rf.Reason = v.reason
